@@ -18,7 +18,8 @@ Env(n, d) == IF n \in DOMAIN IOEnv THEN IOEnv[n] ELSE d
 OutFile == Env("VERIF_GEN_OUT", "/tmp/c11pairs.ndjson")
 
 (* ep_auth / ep_apikey: the authentication the endpoint is called with (basic_auth user|password,      *)
-(* api_key name|value); part of the endpoint's identity like its URL and headers                        *)
+(* api_key name|value); ep_httpsig: http_message_signatures (signer name|key id); part of the           *)
+(* endpoint's identity like its URL and headers                                                         *)
 (* component tables: policy = components that are rule-level policy; inputs = everything else *)
 (* the result depends on, in key order; shifts = adjacent boundaries that can be concretised;  *)
 (* sizes: hdr / val = TRUE if the mechanism has a map of endpoint headers / of values (or a    *)
@@ -28,11 +29,11 @@ Mechs == <<
   (* expressions_error: rule-level expressions whose evaluation fails on the answer (no verdict at all); *)
   (* rendered_payload: same template, rendered from another request                                       *)
   [m |-> "remote_authorizer", policy |-> <<"expressions", "expressions_error">>,
-   inputs |-> <<"ep_url", "ep_method", "ep_headers", "id", "fwd_headers", "payload", "ttl", "subject_id", "subject_attr", "values", "rendered_payload", "ep_auth", "ep_apikey">>,
-   shifts |-> <<"ep_headers.k|v", "id|fwd_headers", "fwd_headers|payload", "values.k|v", "ep_auth.k|v", "ep_apikey.k|v">>, hdr |-> TRUE, val |-> TRUE, hdrdef |-> 0],
+   inputs |-> <<"ep_url", "ep_method", "ep_headers", "id", "fwd_headers", "payload", "ttl", "subject_id", "subject_attr", "values", "rendered_payload", "ep_auth", "ep_apikey", "ep_httpsig">>,
+   shifts |-> <<"ep_headers.k|v", "id|fwd_headers", "fwd_headers|payload", "values.k|v", "ep_auth.k|v", "ep_apikey.k|v", "ep_httpsig.k|v">>, hdr |-> TRUE, val |-> TRUE, hdrdef |-> 0],
   [m |-> "generic_contextualizer", policy |-> <<>>,
-   inputs |-> <<"ep_url", "ep_method", "ep_headers", "id", "fwd_headers", "fwd_cookies", "payload", "ttl", "subject_id", "subject_attr", "values", "rendered_payload", "ep_auth", "ep_apikey">>,
-   shifts |-> <<"ep_headers.k|v", "fwd_headers|fwd_cookies", "fwd_cookies|payload", "values.k|v", "ep_auth.k|v", "ep_apikey.k|v">>, hdr |-> TRUE, val |-> TRUE, hdrdef |-> 0],
+   inputs |-> <<"ep_url", "ep_method", "ep_headers", "id", "fwd_headers", "fwd_cookies", "payload", "ttl", "subject_id", "subject_attr", "values", "rendered_payload", "ep_auth", "ep_apikey", "ep_httpsig">>,
+   shifts |-> <<"ep_headers.k|v", "fwd_headers|fwd_cookies", "fwd_cookies|payload", "values.k|v", "ep_auth.k|v", "ep_apikey.k|v", "ep_httpsig.k|v">>, hdr |-> TRUE, val |-> TRUE, hdrdef |-> 0],
   [m |-> "generic_authenticator", policy |-> <<"session_lifespan">>,
    inputs |-> <<"ep_url", "ep_headers", "credential", "payload", "ep_auth", "ep_apikey">>,
    shifts |-> <<"ep_headers.k|v", "ep_auth.k|v", "ep_apikey.k|v">>, hdr |-> TRUE, val |-> FALSE, hdrdef |-> 0],
